@@ -1665,16 +1665,6 @@ class QasmVisitor:
                     "or a range",
                     span=statement.span,
                 )
-            elif isinstance(value.index[0], qasm3_ast.IntegerLiteral):  # "let alias = q[0];"
-                qid = value.index[0].value
-                Qasm3Validator.validate_register_index(
-                    qid, self._global_qreg_size_map[aliased_reg_name], qubit=True
-                )
-                self._alias_qubit_labels[(alias_reg_name, 0)] = (
-                    aliased_reg_name,
-                    value.index[0].value,
-                )
-                alias_reg_size = 1
             elif isinstance(value.index[0], qasm3_ast.RangeDefinition):  # "let alias = q[0:1:2];"
                 qids = Qasm3Transformer.get_qubits_from_range_definition(
                     value.index[0],
@@ -1684,6 +1674,13 @@ class QasmVisitor:
                 for i, qid in enumerate(qids):
                     self._alias_qubit_labels[(alias_reg_name, i)] = (aliased_reg_name, qid)
                 alias_reg_size = len(qids)
+            else:  # "let alias = q[0];" or any integer expression such as q[-1] or q[n]
+                qid = Qasm3ExprEvaluator.evaluate_expression(value.index[0])[0]
+                Qasm3Validator.validate_register_index(
+                    qid, self._global_qreg_size_map[aliased_reg_name], qubit=True
+                )
+                self._alias_qubit_labels[(alias_reg_name, 0)] = (aliased_reg_name, qid)
+                alias_reg_size = 1
 
         self._global_alias_size_map[alias_reg_name] = alias_reg_size
 
